@@ -49,6 +49,16 @@ def fixed_cases(tier):
     out = []
     for spec in C.name_table_specs():
         out.append({"spec": spec, "base": {"feats": [], "groups": [], "pos": []}, "mods": [0, 1, 4], "extra": [], "seed": 1, "all_names": True})
+    # strings that collide with a name under common 32-bit string hashes (tools/gen_collisions.py): a parser that
+    # dispatches on a hash must still compare the text
+    import json
+    import os
+    with open(os.path.join(os.path.dirname(os.path.dirname(os.path.abspath(__file__))), "data", "hash_collisions.json")) as f:
+        hc = json.load(f)
+    extra = sorted({c for lst in hc["collisions"].values() for nm, c in lst if nm in hc["names"] and c not in hc["names"] and len(c) == len(nm)})
+    spec = {"repr": "u8", "vis": "pub", "ident": "E", "enum_attrs": [],
+            "variants": [{"ident": nm, "disc": None} for nm in hc["names"]]}
+    out.append({"spec": spec, "base": {"feats": [], "groups": [], "pos": []}, "mods": [0, 1, 2, 3, 4], "extra": extra, "seed": 2, "all_names": True})
     return out
 
 
